@@ -470,6 +470,9 @@ def run(run, model):
     run.do(structure_rules, model)
     from . import inv
     run.do(inv.selection, model, "C04.inv-wrap", "C04.inv-wrap-source")
+    # an instance must satisfy the invariants of all its ancestors: the metaclass wraps the members of every class
+    # that has invariants, whatever its body declares (members of an invariant-free base come in through the MRO)
+    run.do(inv.meta_reapply, model, "C04.meta-reapply", None)
     from . import c18, gates, loops
     run.do(c18.find_rule, model, "C04.single-checker")
     for _role, _ck in gates.checkers(model).items():
